@@ -61,6 +61,10 @@ var c48Strip = strings.NewReplacer("bpf.", "", "c48.", "")
 
 func c48Show(v any, rest ...any) string {
 	s := c48Strip.Replace(fmt.Sprintf("%#v", v))
+	switch v.(type) {
+	case []RawInstruction, []real.RawInstruction, RawInstruction, real.RawInstruction:
+		s = fmt.Sprintf("%x", v) // {op jt jf k}, short enough for the report
+	}
 	for _, r := range rest {
 		s += fmt.Sprintf(" | %v", r)
 	}
